@@ -7,7 +7,9 @@
 (* A record is ONE ROUND of a history of rounds that the harness ran on one *)
 (* collector value (R.rnd = its position; R.live = measurement calls of     *)
 (* earlier rounds still running when it started), as it looked at the end   *)
-(* of the history: what the call returned (time since the round's start,    *)
+(* of the history (which lasts until the LAST straggler of any of its       *)
+(* rounds has returned, however late: R.d holds completion times up to the  *)
+(* lateness scale of CollectMC!LateVals): what the call returned (time since the round's start,    *)
 (* result slice) and the final, quiescent state (all scripted clocks of all *)
 (* rounds released, virtual time past every completion time), projected on  *)
 (* what can be seen from outside.  The variables of Collect are BOUND to    *)
@@ -50,12 +52,12 @@ Quiet == R.leaked = 0 /\ ~R.exitdead
 \* the recorded final state as a state of Collect; G = the unlogged set of
 \* clocks whose result the call received (C({}) where got is not mentioned)
 C(G) == INSTANCE Collect WITH
-  MaxClocks <- 64, Rounds <- 3, DVals <- {1, 2, 3, 5}, Overlap <- TRUE, Hist <- FALSE, Fault <- "none",
+  MaxClocks <- 64, Rounds <- 3, DVals <- {1, 2, 3, 5, 90, 7200, 259200, 3000000}, Overlap <- TRUE, Hist <- FALSE, Fault <- "none",
   rnd <- R.rnd, osnd <- <<>>, odr <- <<>>, gap <- R.gap, live <- R.live, hist <- <<>>,
   n <- RN,
   dl <- [k \in 1 .. RN |-> R.d[k]],
   oc <- [k \in 1 .. RN |-> R.o[k]],
-  now <- 5, ctxDone <- TRUE,                     \* = TEnd
+  now <- 3000000, ctxDone <- TRUE,               \* = TEnd: the last straggler has returned
   mpc <- IF R.mainpan THEN "panicked" ELSE IF R.returned THEN "done" ELSE "loop",
   num <- IF R.returned \/ R.mainpan THEN 0 ELSE 1,
   i <- 0, dn <- 0,
